@@ -93,6 +93,7 @@ void set_next_fate(const Fate& f);    // fate of the next child forked by the ca
 typedef Fate (*fate_provider)(const char* output_path);   // alternative: fate looked up from the output file name
 void set_fate_provider(fate_provider);
 void pids_settled();                  // pid recycling: the reaped children forked by the calling thread may have their pid re-used from now on
+bool in_forked_child();               // true in the real forked copy that runs the child side of an exec failure (harness atexit handlers must do nothing there)
 int children_unreaped();              // zombies + running children at this instant
 int fake_fds_open();                  // simulated descriptors still open in the parent
 #endif
